@@ -21,7 +21,7 @@ RULE = ('generated projects with cross-module bases, star imports, single-re-exp
 ASSUME = ['reachable orders are those produced by sorted(iterdir()) under renaming and by the order of the command-line paths',
           'objects re-exported by more than one module are excluded from the location comparison; message order is not compared']
 DECIDING = {'schedules_run': 800, 'distinct_realised_schedules': 400, 'projects_with_2_schedules': 80, 'renamed_twins': 40, 'objects_compared': 20000,
-            'cycle_projects': 20, 'directed_cycle_projects': 60}
+            'cycle_projects': 20, 'directed_cycle_projects': 60, 'directed_sibling_projects': 10}
 CPU_S = 900
 PER = 5
 
@@ -42,6 +42,8 @@ def cases(tier: str, seed: int) -> List[Dict[str, Any]]:
         out.append({'part': 'D', 'idx': i})
     for i in range(len(_DIRECTED_STAR)):
         out.append({'part': 'D', 'star': i})
+    for i in range(len(_DIRECTED_SIB)):
+        out.append({'part': 'D', 'sib': i})
     from vf.gen import corpus
     r = core.rng(seed, 'C06', 'corpus')
     cands = [p for p, nf, size in corpus.roots() if nf >= 3 and size < (300_000 if tier == 'quick' else 1_500_000)]
@@ -90,6 +92,34 @@ def _directed_star_sources(where: str, back: str, tstyle: str, with_all: bool) -
     a = 'from pkg.b import *\nclass InA(Base):\n    def meth(self): pass\n'
     t = f'{tstyle}\nclass T(Base):\n    def meth(self): pass\nclass T2(Late):\n    pass\n'
     return {'pkg/__init__.py': '"""Package."""\n', 'pkg/a.py': a, 'pkg/b.py': b, 'pkg/t.py': t}
+
+
+# third family (no cycle at all): sibling modules reached through their package -- by a star import of the package, or by several dotted
+# imports under one top-level name -- and used when the class statement is visited; the siblings are analysed before or after the user
+_DIRECTED_SIB = list(_it.product(['from . import base\nfrom . import config\n', 'import pkg.base\nimport pkg.config\n', ''],
+                                 ['star', 'dotted-config-first', 'dotted-one-statement', 'dotted-base-first', 'from-pkg']))
+# (a star import of a package whose __init__ imports nothing binds no submodule at run time: not a program)
+_DIRECTED_SIB = [p_ for p_ in _DIRECTED_SIB if not (p_[0] == '' and p_[1] == 'star')]
+# (... but one whose __init__ imports them where the analysis does not look -- in a function it calls -- does, and the analysis never
+# processes the siblings on behalf of the package)
+_DIRECTED_SIB.append(('def _load():\n    from . import base, config\n_load()\n', 'star-plain'))
+
+
+def _directed_sibling_sources(init: str, style: str) -> Dict[str, str]:
+    pre, ref = {'star': ('from pkg import *\n', 'base'), 'dotted-config-first': ('import pkg.config\nimport pkg.base\n', 'pkg.base'),
+                'dotted-one-statement': ('import pkg.config, pkg.base\n', 'pkg.base'), 'dotted-base-first': ('import pkg.base\nimport pkg.config\n', 'pkg.base'),
+                'from-pkg': ('from pkg import config, base\n', 'base'), 'star-plain': ('from pkg import *\n', 'base')}[style]
+    # (uses that are settled when the statement is visited: bases, an alias of a class, an alias of an alias of a built-in exception used as a
+    # base, a method wrapped in a class attribute, an alias that another module re-exports)
+    user = (f'{pre}def traced(f):\n    return f\nclass Impl({ref}.Base):\n    def run(self): pass\n    go = traced({ref}.Base.run)\nclass Gone({ref}.Lost):\n    pass\n'
+            f'class Gone3({ref}.Alias):\n    pass\nLEVEL = {ref.replace("base", "config")}.DEBUG\nPublicBase = {ref}.Base\nPublicLost = {ref}.Alias\n')
+    if style == 'star-plain':
+        # (no use of an alias defined in the sibling: what such an alias expands to when the statement is visited depends on whether the
+        # sibling was analysed by then, with or without any star import)
+        user = f'{pre}class Impl({ref}.Base):\n    def run(self): pass\nclass Gone({ref}.Lost):\n    pass\n'
+    return {'pkg/__init__.py': "'Package.'\n" + init, 'pkg/base.py': "class Base:\n    def run(self):\n        'doc of Base.run'\nclass Lost(Exception):\n    pass\nAlias = ConnectionError\n",
+            'pkg/config.py': 'DEBUG = False\n', 'pkg/impl.py': user, 'pkg/api.py': 'from pkg.impl import PublicBase, PublicLost\n__all__ = ["PublicBase", "PublicLost"]\n', 'pkg/another.py': user.replace('Impl', 'Impl2').replace('Gone', 'Gone2'),
+            'pkg/zlast.py': 'from pkg.impl import Impl\nclass Z(Impl):\n    pass\n'}
 
 
 def worker_init() -> None:
@@ -338,6 +368,9 @@ def run_case(case: Dict[str, Any]) -> core.Res:
         if 'star' in case:
             params = _DIRECTED_STAR[case['star']]
             srcs = _directed_star_sources(*params)
+        elif 'sib' in case:
+            params = _DIRECTED_SIB[case['sib']]
+            srcs = _directed_sibling_sources(*params)
         else:
             params = _DIRECTED_PARAMS[case['idx']]
             srcs = _directed_sources(*params)
@@ -348,8 +381,8 @@ def run_case(case: Dict[str, Any]) -> core.Res:
                 pth.parent.mkdir(parents=True, exist_ok=True)
                 pth.write_text(text)
             label = 'directed-cycle:' + '/'.join(str(x) for x in params)
-            n = _run_orders(res, [base / 'pkg'], label, 24, True, {'project': label, 'sources': srcs}, core.rng('C06', 'D', case.get('idx', case.get('star'))), attribute=False)
-            res.c('directed_cycle_projects')
+            n = _run_orders(res, [base / 'pkg'], label, 24, 'sib' not in case, {'project': label, 'sources': srcs}, core.rng('C06', 'D', case.get('idx', case.get('star', case.get('sib')))), attribute=False)
+            res.c('directed_sibling_projects' if 'sib' in case else 'directed_cycle_projects')
             res.c('evaluations')
         finally:
             shutil.rmtree(base, ignore_errors=True)
